@@ -77,6 +77,56 @@ def closed_subformulas(f):
     return out
 
 
+# ----------------------------------------------------------------------------- structured families
+def permuted_roles(rng, fg, nvars=2):
+    """A closed formula in which one open sub-formula occurs several times, at the same height, with
+    its variables in permuted roles:  Q{x}: Q{y}: (B(x, y) op B(y, x))  -- the shape on which a cache
+    keyed on canonical text must rename more than one variable at once."""
+    names = ["x", "y", "z"][:nvars]
+    body = None
+    for _ in range(20):
+        body = fg.gen(rng.randint(3, 7), scope=names)
+        if gen.free_vars(body) >= set(names):
+            break
+    perms = list(itertools.permutations(names))
+    rng.shuffle(perms)
+    parts = [gen.alpha_rename(copy.deepcopy(body), dict(zip(names, p_))) for p_ in perms[:rng.randint(2, min(3, len(perms)))]]
+    f = parts[0]
+    for p_ in parts[1:]:
+        f = B(rng.choice(["and", "or", "imp", "xor"]), f, p_)
+    if rng.random() < 0.5:
+        f = B("and", f, H("jump", names[0], U("not", V(names[-1]))))
+    for v in reversed(names):
+        f = H(rng.choice(["exists", "bind", "forall", "exists"]), v, f)
+    return f
+
+
+def same_body_under_scopes(rng, fg, labels=("", "d", "e"), closed_body=None):
+    """Several formulae that evaluate ONE sub-formula under different stacks of (restricted) quantifier
+    scopes -- including nested quantifiers that share a domain label, and the same stack with one
+    restriction removed.  The body mentions only the innermost variable (or is closed)."""
+    inner = "v"
+    body = closed_body if closed_body is not None else fg.gen(rng.randint(2, 5), scope=[inner])
+    out = []
+    outer_names = ["x", "y"]
+    for _ in range(rng.randint(2, 4)):
+        depth_ = rng.randint(1, 3) if closed_body is None else rng.randint(1, 2)
+        f = copy.deepcopy(body)
+        if closed_body is None:
+            q = rng.choice(["exists", "bind", "forall"])
+            f = H(q, inner, f if rng.random() < 0.6 else B("and", f, V(inner)), rng.choice(labels))
+            depth_ -= 1
+        for name in outer_names[:depth_]:
+            dom = rng.choice(labels)
+            q = rng.choice(["bind", "exists", "forall"])
+            glue = rng.choice(["and", "or"])
+            f = H(q, name, B(glue, f, rng.choice([V(name), U("not", V(name)), U("EX", V(name))])) if rng.random() < 0.7 else f, dom)
+        if rng.random() < 0.3:
+            f = U(rng.choice(["EX", "AG", "not"]), f)
+        out.append(f)
+    return out
+
+
 # ----------------------------------------------------------------------------- C01
 def gen_c01(rng, probe, tier):
     thorough = tier == "thorough"
@@ -88,7 +138,12 @@ def gen_c01(rng, probe, tier):
     for m in nets:
         fg = gen.FormulaGen(rng, m["vars"], patterns=0.05, max_nest=3 if m["n"] <= 3 else 2)
         for j in range(per_net):
-            f = fg.gen(rng.randint(2, 12 if m["n"] <= 3 else 8))
+            if j % 6 == 5 and m["n"] <= 3:
+                f = permuted_roles(rng, gen.FormulaGen(rng, m["vars"], p_quant=0.0, quant=[], p_jump=0.2,
+                                                       unary=["not", "EX", "AX", "EF", "AG"], binary=["and", "or", "EU"]),
+                                   nvars=rng.choice([2, 2, 3]) if m["n"] == 2 else 2)
+            else:
+                f = fg.gen(rng.randint(2, 12 if m["n"] <= 3 else 8))
             k = k_for(f)
             calls = [call(rng.choice(apis), [f], k)]
             # every closed sub-formula on its own as well
@@ -234,7 +289,20 @@ def gen_c04(rng, probe, tier):
             ext = rng.random() < 0.5
             fg = (ext_formula_gen(rng, m, patterns=0.1, var_names=("x", "y", "z", "xx", "zz"))
                   if ext else gen.FormulaGen(rng, m["vars"], patterns=0.1, var_names=("x", "y", "z", "xx", "zz")))
-            batch = overlapping_batch(rng, fg, rng.randint(2, 4))
+            shape = j % 4
+            if shape == 1 and ext:
+                batch = same_body_under_scopes(rng, gen.FormulaGen(rng, m["vars"], wild=["p"], p_quant=0.0, quant=[], p_jump=0.0,
+                                                                   unary=["not", "EX", "AX", "EF", "AG"], binary=["and", "or", "EU"]))
+            elif shape == 2 and ext:
+                pat = rng.choice([H("bind", "w", U("AG", U("EF", V("w")))), H("bind", "w", U("AX", V("w"))), U("EF", P(m["vars"][0]))])
+                batch = same_body_under_scopes(rng, None, closed_body=pat)
+            elif shape == 3:
+                base = gen.FormulaGen(rng, m["vars"], p_quant=0.0, quant=[], p_jump=0.2, unary=["not", "EX", "AX", "EF", "AG"], binary=["and", "or", "EU"])
+                batch = [permuted_roles(rng, base, 2) for _ in range(rng.randint(1, 2))]
+                if rng.random() < 0.5:
+                    batch.append(fg.gen(rng.randint(2, 6)))
+            else:
+                batch = overlapping_batch(rng, fg, rng.randint(2, 4))
             ctx = {l: rand_ctx_spec(rng) for l in ("p", "q", "d", "e")} if ext else {}
             k = max(k_for(f) for f in batch)
             ids = list(range(1, len(batch) + 1))
@@ -310,8 +378,10 @@ def gen_c08(rng, probe, tier):
     per_net = 50 if thorough else 16
     for m in nets:
         fg = gen.FormulaGen(rng, m["vars"], binary=gen.BINARY_BOOL + gen.BINARY_TEMP, p_quant=0.35, p_const=0.15)
+        chain_gen = gen.FormulaGen(rng, m["vars"], binary=gen.BINARY_TEMP + gen.BINARY_TEMP + ["and", "imp"], unary=["not", "EX"],
+                                   p_quant=0.1, p_const=0.05)
         for j in range(per_net):
-            f = fg.gen(rng.randint(2, 11))
+            f = (chain_gen if j % 3 == 2 else fg).gen(rng.randint(2, 11))
             k = k_for(f)
             calls = [call("formula", [f], k, ids=[1])]
             for _ in range(3):
@@ -319,8 +389,14 @@ def gen_c08(rng, probe, tier):
                 c = call("formula", [g], k, ids=[1])
                 c["formulas"] = [text]
                 calls.append(c)
-            cases.append({"id": "%s-s%d" % (m["id"], j), "net": m["id"], "kinds": ["equal", "denote"], "calls": calls})
-    return nets, cases, ["equal"]
+            # parentheses omitted where the documented precedence / right-associativity makes them redundant
+            import synprops
+            for _ in range(2):
+                c = call("formula", [f], k, ids=[1])
+                c["formulas"] = [synprops.render_min(f, rng)]
+                calls.append(c)
+            cases.append({"id": "%s-s%d" % (m["id"], j), "net": m["id"], "kinds": ["rewrite", "denote"], "calls": calls})
+    return nets, cases, ["rewrite"]
 
 
 # ----------------------------------------------------------------------------- C10
@@ -342,7 +418,39 @@ def gen_c10(rng, probe, tier):
     per_net = 40 if thorough else 14
     for m in nets:
         fg = gen.FormulaGen(rng, m["vars"], binary=gen.BINARY_BOOL + ["EU", "AU"], p_quant=0.2, patterns=0.08)
+        xg = ext_formula_gen(rng, m, patterns=0.08)
+        plain_closed = gen.FormulaGen(rng, m["vars"], p_quant=0.15, unary=["not", "EX", "EF", "AG"], binary=["and", "or", "EU"],
+                                      var_names=("u", "w1", "z"), max_nest=1)
         for j in range(per_net):
+            if j % 3 == 2:
+                # an EXTENDED surrounding formula (domains, wild-cards): the same closed sub-formula occurs
+                # under several (restricted) scopes and is replaced everywhere by one wild-card
+                psi = plain_closed.gen(rng.randint(2, 5))
+                parts = same_body_under_scopes(rng, None, labels=("", "d", "e"), closed_body=B(rng.choice(["and", "or"]), psi, U("EX", psi)))
+                f = parts[0]
+                for p_ in parts[1:]:
+                    f = B(rng.choice(["and", "or", "imp"]), f, p_)
+                if rng.random() < 0.5:
+                    f = B("and", f, xg.gen(rng.randint(2, 5)))
+                ctx0 = {l: rand_ctx_spec(rng) for l in ("p", "q", "d", "e")}
+                k = k_for(f)
+
+                def subst(g):
+                    if g == psi:
+                        return W("w0")
+                    h = dict(g)
+                    for key in ("a", "b"):
+                        if key in g:
+                            h[key] = subst(g[key])
+                    return h
+                ctx1 = dict(ctx0)
+                ctx1["w0"] = {"t": "result", "call": 0, "idx": 0}
+                calls = [call("multi_dirty", [psi], k, ids=[100]),
+                         call("ext_dirty", [f], k, ids=[1], ctx=ctx0),
+                         call("ext_dirty", [subst(f)], k, ids=[1], ctx=ctx1),
+                         call("multi_ext_dirty", [subst(f), subst(f)], k, ids=[1, 1], ctx=ctx1)]
+                cases.append({"id": "%s-x%d" % (m["id"], j), "net": m["id"], "kinds": ["equal"], "calls": calls})
+                continue
             f = fg.gen(rng.randint(4, 12))
             subs = [g for g in closed_subformulas(f) if g is not f]
             k = k_for(f)
@@ -410,6 +518,23 @@ def gen_c12(rng, probe, tier):
         fg = gen.FormulaGen(rng, m["vars"], wild=["p"], doms=["d"], patterns=0.45, p_quant=0.25, p_dom=0.5,
                             var_names=("x", "y", "z", "xx"))
         for j in range(per_net):
+            if j % 4 == 3:
+                # the same pattern under several (restricted) scopes, inside ONE formula and as a batch
+                pat = rng.choice([H("bind", "w", U("AG", U("EF", V("w")))), H("bind", "w", U("AX", V("w")))])
+                parts = same_body_under_scopes(rng, None, labels=("", "d", "d"), closed_body=pat)
+                f = parts[0]
+                for p_ in parts[1:]:
+                    f = B(rng.choice(["and", "or"]), f, p_)
+                g = defeat_patterns(f)
+                ctx = {l: rand_ctx_spec(rng) for l in ("p", "d")}
+                k = k_for(f)
+                calls = [call("ext_dirty", [f], k, ids=[1], ctx=ctx), call("ext_dirty", [g], k, ids=[1], ctx=ctx),
+                         call("multi_ext_dirty", parts + [pat], k, ids=list(range(10, 10 + len(parts))) + [2], ctx=ctx),
+                         call("ext_dirty", [pat], k, ids=[2], ctx=ctx)]
+                for i_, p_ in enumerate(parts):
+                    calls.append(call("ext_dirty", [defeat_patterns(p_)], k, ids=[10 + i_], ctx=ctx))
+                cases.append({"id": "%s-q%d" % (m["id"], j), "net": m["id"], "kinds": ["denote", "equal"], "calls": calls})
+                continue
             if rng.random() < 0.3:
                 scope = rng.sample(["x", "y"], rng.randint(0, 2))
                 inner = near_miss(rng, "z", scope)
@@ -443,6 +568,15 @@ def gen_c15(rng, probe, tier):
             d = k_for(f)
             ctx = {l: rand_ctx_spec(rng) for l in ("p", "q", "d", "e")} if ext else {}
             calls = []
+            # graphs whose variables have different numbers of spare sets (each at least the nesting depth)
+            for _ in range(2):
+                km = [d + rng.choice([0, 0, 1, 2]) for _ in range(m["n"])]
+                if ext:
+                    calls.append(call("ext", [f], min(km), ids=[1], ctx=ctx, k_map=km))
+                    calls.append(call("ext_dirty", [f], min(km), ids=[1], ctx=ctx, k_map=km))
+                else:
+                    calls.append(call(rng.choice(["formula", "multi"]), [f], min(km), ids=[1], k_map=km))
+                    calls.append(call("formula_dirty", [f], min(km), ids=[1], k_map=km))
             for extra in (0, 1, 2):
                 if ext:
                     calls.append(call("ext", [f], d + extra, ids=[1], ctx=ctx))
@@ -466,6 +600,15 @@ def gen_c18(rng, probe, tier):
         full = gen.FormulaGen(rng, m["vars"], binary=gen.BINARY_BOOL + gen.BINARY_TEMP, p_quant=0.25)
         for j in range(per_net):
             f = (frag if rng.random() < 0.7 else full).gen(rng.randint(2, 10))
+            if j % 5 == 4:
+                # small binder shapes close to the optimised patterns: !{x}: OP {x}, !{x}: OP OP' {x}, ...
+                ops_ = ["EF", "AG", "not"] if rng.random() < 0.7 else gen.UNARY
+                body = V("x")
+                for _ in range(rng.randint(1, 2)):
+                    body = U(rng.choice(ops_), body)
+                f = H(rng.choice(["bind", "bind", "exists", "forall"]), "x", body)
+                if rng.random() < 0.5:
+                    f = B(rng.choice(["and", "or", "EU"]), f, frag.gen(rng.randint(1, 4)))
             k = k_for(f)
             cases.append({"id": "%s-l%d" % (m["id"], j), "net": m["id"], "kinds": ["unsafe"],
                           "calls": [call("formula_dirty", [f], k), call("unsafe_ex", [f], k)]})
@@ -482,7 +625,27 @@ def gen_c20(rng, probe, tier):
     per_net = 24 if thorough else 8
     for m in nets:
         fg = gen.FormulaGen(rng, m["vars"], binary=gen.BINARY_BOOL + gen.BINARY_TEMP, p_quant=0.25, patterns=0.08)
+        xg = ext_formula_gen(rng, m, patterns=0.1)
+        defs = gen.FormulaGen(rng, m["vars"], p_quant=0.2, patterns=0.3, max_nest=1, unary=["not", "EX", "EF", "AG", "AX"], binary=["and", "or", "EU"])
         for j in range(per_net):
+            if j % 3 == 2:
+                # extended formula whose context sets are defined by closed formulae (colour-dependent sets)
+                if j % 2 == 0:
+                    f = xg.gen(rng.randint(2, 8))
+                else:
+                    # a value that is NOT computed on the restricted graph (wild-card, steady-state shortcut)
+                    # directly under a quantifier with a colour-dependent domain
+                    leaf = rng.choice([W("p"), H("bind", "y", U("AX", V("y"))), B("or", W("p"), W("q")), B("and", W("q"), H("bind", "y", U("AX", V("y"))))])
+                    f = H(rng.choice(["bind", "exists", "bind"]), "x", leaf if rng.random() < 0.6 else B(rng.choice(["or", "and"]), leaf, xg.gen(3, scope=["x"])), "d")
+                    if rng.random() < 0.4:
+                        f = U(rng.choice(["EF", "AX", "not"]), f)
+                k = max(k_for(f), 1)
+                ctx = {l: {"t": "formula", "f": gen.render(defs.gen(rng.randint(2, 5)))} for l in ("p", "q", "d", "e")}
+                calls = [call(rng.choice(["ext", "ext_dirty"]), [f], k, ctx=ctx)]
+                for c in range(2 ** m["pbits"]):
+                    calls.append(call("inst_formula", [f], k, colour=c, ctx=ctx))
+                cases.append({"id": "%s-x%d" % (m["id"], j), "net": m["id"], "kinds": ["slice"], "calls": calls})
+                continue
             f = fg.gen(rng.randint(2, 10))
             k = k_for(f)
             calls = [call(rng.choice(["formula", "formula_dirty"]), [f], k)]
@@ -540,6 +703,13 @@ def gen_c14_sem(rng, probe, tier):
         for j in range(per_net):
             ext = rng.random() < 0.6
             f = (xg if ext else fg).gen(rng.randint(2, 9))
+            if ext and j % 5 == 4:
+                # valid input of a demanding shape: one sub-formula with wild-cards under several restricted scopes
+                parts = same_body_under_scopes(rng, gen.FormulaGen(rng, m["vars"], wild=["p", "q"], p_wild=0.5, p_quant=0.0, quant=[],
+                                                                   p_jump=0.0, unary=["not", "EX", "EF"], binary=["and", "or"]))
+                f = parts[0]
+                for p_ in parts[1:]:
+                    f = B("and", f, p_)
             g, provide, k = break_formula(rng, f, m)
             if ext:
                 ctx = {l: rand_ctx_spec(rng, inside_unit=rng.random() < 0.6) for l in provide}
@@ -569,7 +739,10 @@ def gen_c14(rng, probe, tier):
     ext_apis = ["ext", "ext_dirty", "multi_ext", "multi_ext_dirty"]
     for m in nets:
         # strings over the network's own variable names, valid, mutated, token soup, noise
-        fg = gen.FormulaGen(rng, m["vars"] + ["nonvar"], binary=gen.BINARY_BOOL + gen.BINARY_TEMP, wild=["p", "q"], doms=["d"],
+        # proposition names: the network's variables, unknown names, and names the symbolic encoding itself
+        # uses for auxiliary / parameter variables (which are NOT network variables)
+        odd = ["nonvar"] + ["%s_extra_%d" % (v, i) for v in m["vars"][:2] for i in (0, 1)] + ["f", "k", "extra_0"]
+        fg = gen.FormulaGen(rng, m["vars"] + m["vars"] + odd, binary=gen.BINARY_BOOL + gen.BINARY_TEMP, wild=["p", "q"], doms=["d"],
                             var_names=("x", "y", "zz", "1", "EX"), p_quant=0.3, p_const=0.1, max_nest=3, patterns=0.05)
         for j in range(per_net):
             nform = 1 if rng.random() < 0.8 else 2
